@@ -31,7 +31,7 @@ SAFE_BUILTINS = {
     'len': len, 'chr': chr, 'ord': ord, 'range': range, 'all': all, 'any': any, 'sorted': sorted, 'min': min, 'max': max,
     'str': str, 'int': int, 'list': list, 'tuple': tuple, 'set': set, 'frozenset': frozenset, 'bool': bool, 'repr': repr,
     'enumerate': enumerate, 'zip': zip, 'reversed': reversed, 'sum': sum, 'isinstance': isinstance, 'type': type,
-    'dict': dict, 'abs': abs,
+    'dict': dict, 'abs': abs, 'OrderedDict': dict,
 }
 SAFE_ATTR_CALLS = {
     're.escape': re.escape, 're.compile': re.compile, 're.match': re.match, 're.fullmatch': re.fullmatch, 're.search': re.search,
